@@ -120,20 +120,3 @@ func (c *capture) kinds() []string {
 	return ks
 }
 
-// logSink is a zap WriteSyncer that keeps everything written to it.
-type logSink struct {
-	mu  sync.Mutex
-	buf bytes.Buffer
-}
-
-func (l *logSink) Write(p []byte) (int, error) {
-	l.mu.Lock()
-	defer l.mu.Unlock()
-	return l.buf.Write(p)
-}
-func (l *logSink) Sync() error { return nil }
-func (l *logSink) bytes() []byte {
-	l.mu.Lock()
-	defer l.mu.Unlock()
-	return append([]byte{}, l.buf.Bytes()...)
-}
